@@ -15,6 +15,8 @@ HARNESS = os.path.join(VERIF, "harness")
 WORK = os.path.join(VERIF, "work")
 REPLAYS = os.path.join(VERIF, "replays")
 EVIDENCE = os.path.join(VERIF, "evidence")
+# runs against a deliberately modified /repo (tools/seeded.py) must not overwrite the evidence of the real tree
+EVIDENCE = os.environ.get("VERIF_EVIDENCE_DIR", EVIDENCE)
 KNOWN = os.path.join(VERIF, "KNOWN_FINDINGS.txt")
 DRIVER = os.path.join(LEAN, ".lake", "build", "bin", "driver")
 
@@ -169,6 +171,12 @@ def _parse_driver_output(out, transcript):
                     res["summary"][m.group(1)] = m.group(2)
         elif line.startswith("NOTE"):
             res["notes"].append(line)
+        elif line.startswith("ISTAT"):
+            d = dict(m.groups() for m in re.finditer(r"(\w+)=(\S+)", line))
+            st = res.setdefault("istat", {}).setdefault(d.get("name", "?"), {"cases": 0, "steps": 0, "vals": 0, "sigs": 0})
+            st["cases"] += 1
+            for k in ("steps", "vals", "sigs"):
+                st[k] += int(d.get(k, 0))
     return res
 
 
@@ -218,6 +226,10 @@ def run_driver(transcript, jobs=16):
             res["error"] = "driver produced no SUMMARY on " + p + ": " + out[-500:]
         res["mismatches"] += r["mismatches"]
         res["notes"] += r["notes"]
+        for nm, st in r.get("istat", {}).items():
+            agg = res.setdefault("istat", {}).setdefault(nm, {"cases": 0, "steps": 0, "vals": 0, "sigs": 0})
+            for k in st:
+                agg[k] += st[k]
         for k2, v in r["summary"].items():
             if isinstance(v, int):
                 res["summary"][k2] = res["summary"].get(k2, 0) + v
